@@ -67,7 +67,7 @@ theorem checkCaseNames_prune {f : Attr → Bool} {ks : List CN} (h : checkNames 
 mutual
 def wfA : A → Bool
   | .container _ _ _ kids => wfKids kids
-  | .list _ _ _ kids => wfKids kids
+  | .list _ _ _ _ _ kids => wfKids kids
   | .choice _ _ _ _ cases => wfCases cases
   | .case _ _ kids => wfKids kids
   | _ => true
@@ -97,14 +97,14 @@ theorem inherit_case_cfg (m : Meta) (inh i : Inh) (h : inherit { m with cfg := n
   | error e => simp [hs] at h
   | ok st => simp [hs, getConfig] at h; rw [← h]
 
-theorem build_case_cfg (g : Attr → Bool) (feat : List Tok) (inh : Inh) (n : Tok) (m : Meta) (kids : List A) (c : CN)
-    (h : build g feat inh (.case n m kids) = .ok c) : c.attr.cfg = inh.cfg := by
+theorem build_case_cfg (g : Attr → Bool) (env : FeatEnv) (inh : Inh) (n : Tok) (m : Meta) (kids : List A) (c : CN)
+    (h : build g env inh (.case n m kids) = .ok c) : c.attr.cfg = inh.cfg := by
   simp only [build] at h
   cases hi : inherit { m with cfg := none } inh with
   | error e => simp [hi] at h
   | ok i =>
     simp only [hi, ebind_ok] at h
-    cases hk : buildKids g feat i kids with
+    cases hk : buildKids g env i kids with
     | error e => simp [hk] at h
     | ok ks =>
       simp only [hk, ebind_ok] at h
@@ -114,26 +114,30 @@ theorem build_case_cfg (g : Attr → Bool) (feat : List Tok) (inh : Inh) (n : To
         simp only [hn, ebind_ok, epure, Except.ok.injEq] at h
         subst h; simp [CN.attr, inherit_case_cfg m inh i hi]
 
-theorem cases_cfg (g : Attr → Bool) (feat : List Tok) (inh : Inh) :
-    ∀ (l : List A) (ks : List CN), wfCases l = true → buildKids g feat inh l = .ok ks → ∀ k ∈ ks, k.attr.cfg = inh.cfg
+theorem cases_cfg (g : Attr → Bool) (env : FeatEnv) (inh : Inh) :
+    ∀ (l : List A) (ks : List CN), wfCases l = true → buildKids g env inh l = .ok ks → ∀ k ∈ ks, k.attr.cfg = inh.cfg
   | [], ks, _, h => by simp [buildKids] at h; subst h; simp
   | .case n m kids :: r, ks, hw, h => by
     simp only [buildKids] at h
     simp only [wfCases, Bool.and_eq_true] at hw
-    by_cases hig : ignored feat (A.case n m kids).meta = true
-    · simp only [hig, if_true] at h; exact cases_cfg g feat inh r ks hw.2 h
-    · have hig' : ignored feat (A.case n m kids).meta = false := by simpa using hig
-      simp only [hig', Bool.false_eq_true, if_false] at h
-      cases hb : build g feat inh (.case n m kids) with
+    cases hig : ignoredM env (A.case n m kids).meta inh.st with
+    | error e => simp [hig] at h
+    | ok ig =>
+    simp only [hig, ebind_ok] at h
+    cases ig with
+    | true => simp only [if_true] at h; exact cases_cfg g env inh r ks hw.2 h
+    | false =>
+      simp only [Bool.false_eq_true, if_false] at h
+      cases hb : build g env inh (.case n m kids) with
       | error e => simp [hb] at h
       | ok c =>
         simp only [hb, ebind_ok] at h
-        cases hr : buildKids g feat inh r with
+        cases hr : buildKids g env inh r with
         | error e => simp [hr] at h
         | ok rest =>
           simp only [hr, ebind_ok, epure, Except.ok.injEq] at h
-          have ih := cases_cfg g feat inh r rest hw.2 hr
-          have hc := build_case_cfg g feat inh n m kids c hb
+          have ih := cases_cfg g env inh r rest hw.2 hr
+          have hc := build_case_cfg g env inh n m kids c hb
           intro k hk
           subst h
           by_cases hg : g c.attr = true
@@ -170,19 +174,19 @@ theorem wfCases_wfKids : ∀ l : List A, wfCases l = true → wfKids l = true
 
 
 section main
-variable (f : Attr → Bool) (hf : CfgOnly f) (feat : List Tok)
+variable (f : Attr → Bool) (hf : CfgOnly f) (env : FeatEnv)
 include hf
 
 mutual
 theorem build_prune : ∀ (a : A) (inh : Inh) (c : CN), wfA a = true →
-    build keepAll feat inh a = .ok c → build f feat inh a = .ok (prune f c)
+    build keepAll env inh a = .ok c → build f env inh a = .ok (prune f c)
   | .container n m pr kids, inh, c, hw, h => by
     simp only [build] at h ⊢
     cases hi : inherit m inh with
     | error e => simp [hi] at h
     | ok i =>
       simp only [hi, ebind_ok] at h ⊢
-      cases hk : buildKids keepAll feat i kids with
+      cases hk : buildKids keepAll env i kids with
       | error e => simp [hk] at h
       | ok ks =>
         simp only [hk, ebind_ok] at h
@@ -193,13 +197,13 @@ theorem build_prune : ∀ (a : A) (inh : Inh) (c : CN), wfA a = true →
           subst h
           rw [buildKids_prune kids i ks (by simpa [wfA] using hw) hk]
           simp only [ebind_ok, checkNames_prune hn, epure, prune]
-  | .list n m keys kids, inh, c, hw, h => by
+  | .list n m keys mn mx kids, inh, c, hw, h => by
     simp only [build] at h ⊢
     cases hi : inherit m inh with
     | error e => simp [hi] at h
     | ok i =>
       simp only [hi, ebind_ok] at h ⊢
-      cases hk : buildKids keepAll feat i kids with
+      cases hk : buildKids keepAll env i kids with
       | error e => simp [hk] at h
       | ok ks =>
         simp only [hk, ebind_ok] at h
@@ -216,7 +220,7 @@ theorem build_prune : ∀ (a : A) (inh : Inh) (c : CN), wfA a = true →
     | error e => simp [hi] at h
     | ok i =>
       simp only [hi, ebind_ok] at h ⊢
-      cases hk : buildKids keepAll feat i kids with
+      cases hk : buildKids keepAll env i kids with
       | error e => simp [hk] at h
       | ok ks =>
         simp only [hk, ebind_ok] at h
@@ -232,9 +236,12 @@ theorem build_prune : ∀ (a : A) (inh : Inh) (c : CN), wfA a = true →
     cases hi : inherit m inh with
     | error e => simp [hi] at h
     | ok i =>
-      simp only [hi, ebind_ok, epure, Except.ok.injEq] at h ⊢
-      subst h; simp [prune, pruneKids]
-  | .leafList n m, inh, c, _, h => by
+      simp only [hi, ebind_ok] at h ⊢
+      by_cases hmd : (mand && d.isSome) = true
+      · simp [hmd] at h
+      · simp only [hmd, Bool.false_eq_true, if_false, epure, Except.ok.injEq] at h ⊢
+        subst h; simp [prune, pruneKids]
+  | .leafList n m mn mx, inh, c, _, h => by
     simp only [build] at h ⊢
     cases hi : inherit m inh with
     | error e => simp [hi] at h
@@ -248,7 +255,7 @@ theorem build_prune : ∀ (a : A) (inh : Inh) (c : CN), wfA a = true →
     | ok i =>
       simp only [hi, ebind_ok] at h ⊢
       have hwc : wfCases cases = true := by simpa [wfA] using hw
-      cases hk : buildKids keepAll feat i cases with
+      cases hk : buildKids keepAll env i cases with
       | error e => simp [hk] at h
       | ok ks =>
         simp only [hk, ebind_ok] at h
@@ -278,28 +285,32 @@ theorem build_prune : ∀ (a : A) (inh : Inh) (c : CN), wfA a = true →
               by_cases hfa : f { kind := .choice, name := n, cfg := i.cfg, st := i.st, flag := mand, dflt := some dc } = true
               · have hall : ∀ k ∈ ks, f k.attr = true := by
                   intro k hk'
-                  have := cases_cfg keepAll feat i cases ks hwc hk k hk'
+                  have := cases_cfg keepAll env i cases ks hwc hk k hk'
                   rw [hf k.attr { kind := .choice, name := n, cfg := i.cfg, st := i.st, flag := mand, dflt := some dc } this]
                   exact hfa
                 have := any_pruneKids_of_all f (fun k => decide (k.attr.name = dc)) (by intro c; simp [prune_attr]) ks hall
                 simp only [hfa, this, hany, Bool.not_true, Bool.and_false, Bool.false_eq_true, if_false, epure, prune]
               · simp only [hfa, Bool.false_and, Bool.false_eq_true, if_false, epure, prune]
 theorem buildKids_prune : ∀ (l : List A) (inh : Inh) (cs : List CN), wfKids l = true →
-    buildKids keepAll feat inh l = .ok cs → buildKids f feat inh l = .ok (pruneKids f cs)
+    buildKids keepAll env inh l = .ok cs → buildKids f env inh l = .ok (pruneKids f cs)
   | [], inh, cs, _, h => by
     simp only [buildKids, epure, Except.ok.injEq] at h ⊢; subst h; simp [pruneKids]
   | a :: r, inh, cs, hw, h => by
     simp only [buildKids] at h ⊢
     simp only [wfKids, Bool.and_eq_true] at hw
-    by_cases hig : ignored feat a.meta = true
-    · simp only [hig, if_true] at h ⊢; exact buildKids_prune r inh cs hw.2 h
-    · have hig' : ignored feat a.meta = false := by simpa using hig
-      simp only [hig', Bool.false_eq_true, if_false] at h ⊢
-      cases hb : build keepAll feat inh a with
+    cases hig : ignoredM env a.meta inh.st with
+    | error e => simp [hig] at h
+    | ok ig =>
+    simp only [hig, ebind_ok] at h ⊢
+    cases ig with
+    | true => simp only [if_true] at h ⊢; exact buildKids_prune r inh cs hw.2 h
+    | false =>
+      simp only [Bool.false_eq_true, if_false] at h ⊢
+      cases hb : build keepAll env inh a with
       | error e => simp [hb] at h
       | ok c =>
         simp only [hb, ebind_ok] at h
-        cases hr : buildKids keepAll feat inh r with
+        cases hr : buildKids keepAll env inh r with
         | error e => simp [hr] at h
         | ok rest =>
           simp only [hr, ebind_ok, epure, keepAll, if_true, Except.ok.injEq] at h
